@@ -143,8 +143,9 @@ def main():
         "setup_cmd": "./setup.sh",
         "hooks": {
             "guard": "MAR10_NUTREE_VERIF",
-            "enable": "no source hooks: the recorder/projection wraps the public API from outside (harness/), "
-                      "active only inside the harness process (./check sets MAR10_NUTREE_VERIF=1)",
+            "enable": "no source hooks: projection, lock tracer and the pytest recorder plugin "
+                      "(harness/suite_recorder.py, -p harness.suite_recorder) wrap the public API from outside and are "
+                      "active only with MAR10_NUTREE_VERIF=1 (set by ./check)",
             "baseline_off_cmd": "cd /repo && /venv/bin/python -m pytest -ra -q -p no:cacheprovider --timeout=900 "
                                 "--continue-on-collection-errors",
             "source_commits": [],
